@@ -524,21 +524,27 @@ def run_shard(args):
         mod = load_module(pid)
         known = load_known(pid)
         stats = Stats()
+        harness_errors = []
         for idx, sub in enumerate(mod.SUBS):
             if only and sub.name not in only:
                 continue
             total = sub.budget[tier]
             n = total // nshards + (1 if shard < total % nshards else 0)
             sseed = (seedval * 1000003 + shard * 7919 + idx * 104729) % (2 ** 31)
-            if sub.kind == 'enum':
-                drive_enum(pid, sub, tier, shard, nshards, stats, known)
-            elif n <= 0:
-                continue
-            elif sub.kind == 'machine':
-                drive_machine(pid, sub, tier, n, sseed, stats, known)
-            else:
-                drive_given(pid, sub, tier, n, sseed, stats, known)
-        return {'ok': True, 'stats': stats.dump()}
+            try:
+                if sub.kind == 'enum':
+                    drive_enum(pid, sub, tier, shard, nshards, stats, known)
+                elif n <= 0:
+                    continue
+                elif sub.kind == 'machine':
+                    drive_machine(pid, sub, tier, n, sseed, stats, known)
+                else:
+                    drive_given(pid, sub, tier, n, sseed, stats, known)
+            except HarnessError as exc:
+                # one sub-check could not digest what the code under test handed it: the other sub-checks still run -- if they
+                # report a violation the run ends as a violation (exit 1), otherwise as a harness error (exit 2)
+                harness_errors.append(str(exc))
+        return {'ok': True, 'stats': stats.dump(), 'harness_errors': harness_errors}
     except HarnessError as exc:
         return {'ok': False, 'error': str(exc)}
     except Exception:
@@ -633,11 +639,19 @@ def run_property(pid, tier, seedval, procs=None, only=None):
         with ctx.Pool(procs) as pool:
             results = pool.map(run_shard, jobs, chunksize=1)
     errors = [r['error'] for r in results if not r['ok']]
-    if errors:
-        sys.stderr.write('HARNESS ERROR in %s:\n%s\n' % (pid, '\n---\n'.join(errors)))
-        return EXIT_HARNESS
+    soft = [e for r in results if r['ok'] for e in r.get('harness_errors', [])]
     for r in results:
-        stats.merge(r['stats'])
+        if r['ok']:
+            stats.merge(r['stats'])
+    if errors or (soft and not stats.failures):
+        sys.stderr.write('HARNESS ERROR in %s:\n%s\n' % (pid, '\n---\n'.join(errors + soft)))
+        return EXIT_HARNESS
+    if soft:
+        # violations were found by other sub-checks: they are the verdict; the sub-checks that could not process what the code
+        # under test returned are listed for the record
+        sys.stderr.write('note: %d sub-check run(s) of %s stopped with an exception in harness code on this tree:\n%s\n' % (
+            len(soft), pid, '\n---\n'.join(e[:600] for e in soft[:3])))
+        stats.notes.append('sub-check runs stopped by an exception in harness code: %d' % len(soft))
     # one replay file / VIOLATION line per distinct signature
     seen = {}
     for f in stats.failures:
